@@ -17,6 +17,11 @@ func init() {
 			Kind: slip.MacroSymbol,
 			Name: "prog1",
 			Args: []*slip.DocArg{
+				{
+					Name: "first-form",
+					Type: "object",
+					Text: "The form whose value is returned.",
+				},
 				{Name: "&rest"},
 				{
 					Name: "forms",
